@@ -6,6 +6,40 @@ package rig
 // evaluation satisfies, or "". Triggers look only at the schedule and at the
 // protocol situation at the moment of the cancellation (cancelFacts, taken
 // from the snapshot right before Cancel), never at what went wrong afterwards.
+// A failure without any cancellation is never inside a trigger.
 func knownFinding(sc *Scenario, out *outcome, base *outcome) string {
+	cf := out.cf
+	if sc.Cancel == nil || !cf.fired || !cf.busy {
+		// no cancellation, or it hit a controller that held no lock yet
+		return ""
+	}
+	switch {
+	case cf.op == "r" && cf.state == stateMod:
+		// KF-R2: a read of a line the core holds Modified takes the WRITE lock
+		// (msi.rLock case modified) but the controller files it under its read
+		// locks, so flush() releases it with RUnlock.
+		return "KF-R2"
+	case cf.state == stateInv && cf.resident:
+		// KF-R1: cancelled between the arrival of the fetched line in L1 and
+		// the completion that sets its protocol state.
+		return "KF-R1"
+	case cf.cmdLine > 0:
+		// KF-R3: cancelled while a snoop command for the request's line is
+		// outstanding: the lock is released, the command stays.
+		return "KF-R3"
+	case sc.Variant == "mvp8-0" && cf.op == "r" && cf.state == stateInv && !cf.resident && base != nil && sc.Cancel.Req < len(base.main):
+		// KF-R4 (mvp8 only): a read that misses L3 takes the L3 line's fill
+		// mutex (msi.getL3Lock TryLock) L3Access=50 steps before it pushes the
+		// line into L3 and L1, and releases it in that step. In the
+		// no-cancellation run of the same schedule (identical up to here) the
+		// line arrived in L1 after residentAt steps, at least 359 steps after the
+		// lock (so it came from memory, not from L3): the mutex is held during
+		// the 50 steps before the arrival.
+		t := base.main[sc.Cancel.Req]
+		if t.residentAt >= 0 && t.busyAt >= 0 && t.residentAt-t.busyAt >= 359 &&
+			sc.Cancel.Offset >= t.residentAt-50 && sc.Cancel.Offset <= t.residentAt-1 {
+			return "KF-R4"
+		}
+	}
 	return ""
 }
